@@ -51,7 +51,15 @@ def rich_story(rng, sid, timing=None):
             if rng.random() < 0.4:
                 extra.append(E('objType', text='VIDEO'))
             if rng.random() < 0.5:
-                note = E('studioCommand', E('text', text='note %d' % j), type=rng.choice(['note', 'other']))
+                shape = rng.random()
+                if shape < 0.6:
+                    note = E('studioCommand', E('text', text='note %d' % j), type=rng.choice(['note', 'other']))
+                elif shape < 0.75:
+                    note = E('studioCommand', type='note')                                  # a note command without <text>
+                elif shape < 0.9:
+                    note = E('studioCommand', E('title', text='only a title'), type='note')
+                else:
+                    note = E('studioCommand', E('text'), type='note')                       # <text/> present but empty
                 extra.append(E('mosExternalMetadata', E('mosPayload', E('studioCommands', E('studioCommand', type='x'), note))))
             if rng.random() < 0.15:
                 extra.append(gens.decoy_block())     # nested story / item / p / StoryDuration inside the item's payload
@@ -384,7 +392,7 @@ class Check(ReportCheck):
         if rep == 'norc':
             return None
         import re
-        m = re.search(r'=E(\w+)', rep)
+        m = re.search(r'(?:=| )E(\w+)', rep)            # field=E<exception>, or an item field token E<exception>
         if m:
             if not well_formed(impl.parse_doc(text).find('roCreate')):
                 return None
